@@ -130,6 +130,7 @@ pub fn run(out_dir: &str, tier: &str, seed: u64, only: Option<String>) -> Value 
     let full = tier == "thorough";
     let cfgs: Vec<Config> = configs::all(true)
         .into_iter()
+        .chain(configs::literal())
         .filter(|c| match &only {
             Some(o) => &c.name == o,
             // electrolytes have no virial coefficients (excluded by the property)
